@@ -1338,6 +1338,9 @@ impl Check for C16 {
         ]
     }
 
+    fn devopt_scale(&self) -> Option<f64> {
+        Some(0.04)
+    }
     fn explore(&self, cli: &Cli, st: &mut Stats) {
         let nthreads = cli.threads;
 
